@@ -1,6 +1,925 @@
-//! C17 — harness module not built yet.
+//! C17 — token-merge deposits.  Histories of SendNft deposits, direct ReceiveNft calls and
+//! admin messages are run on the real token-merge factory/minter and sg721-base
+//! collections; after every step the queries the property names and the ownership of
+//! every source/target token are recorded as a Coq case for the model comparison, and the
+//! property sentence is evaluated on those observations by the monitors below (which
+//! keep their own count of accepted deposits and share nothing with the model).
+#[path = "c17_world.rs"]
+mod world;
+use crate::chain;
+use crate::util::*;
 use crate::Args;
-pub fn run(_a: &Args) {
-    eprintln!("C17: harness module not built yet");
-    std::process::exit(2);
+use serde::Deserialize;
+use std::collections::{BTreeMap, BTreeSet};
+use world::*;
+
+const NACC: usize = ACCOUNTS.len();
+
+struct StepOut {
+    ok: bool,
+    err: String,
+    pick: u64,
+    post: Obs,
+}
+struct RunOut {
+    init: Obs,
+    steps: Vec<StepOut>,
+    violations: Vec<(String, String, usize)>, // key, what, step index
+    notes: Vec<String>,
+}
+
+/// what the monitors remember: deposits accepted for (recipient, collection) since the
+/// recipient's last deposit-mint
+#[derive(Default)]
+struct Shadow {
+    credited: BTreeMap<(usize, usize), u32>,
+    /// target tokens seen arriving at each account since the last accepted Purge (the monitors' own mint count)
+    received: BTreeMap<usize, u64>,
+    // supply side (C01 clauses on this minter)
+    minted: BTreeSet<u64>,
+    burned: u64,
+    started: bool,
+}
+
+fn recipient_index(user: usize, recip: &Recip) -> Option<usize> {
+    match recip {
+        Recip::None => Some(user),
+        Recip::Addr(i) => Some(*i),
+        Recip::Invalid => None,
+    }
+}
+
+/// The property text on one step.  `pre`/`post` are query results before/after.
+#[allow(clippy::too_many_arguments)]
+fn monitor(
+    case: &Case,
+    st: &Step,
+    ok: bool,
+    pre: &Obs,
+    post: &Obs,
+    digest_same: bool,
+    sh: &mut Shadow,
+    notes: &mut Vec<String>,
+) -> Vec<(String, String)> {
+    let mut v: Vec<(String, String)> = vec![];
+    let nc = case.ncolls;
+    macro_rules! bad {
+        ($k:expr, $w:expr) => {
+            v.push((format!("C17:{}", $k), $w))
+        };
+    }
+    if !ok {
+        // a rejected call changes nothing anywhere; in particular a rejected deposit leaves the token with its owner
+        if let Op::Send { coll, tok, .. } = &st.op {
+            if let Some(i) = case.src.iter().position(|(c, t, _)| c == coll && t == tok) {
+                if pre.src[i] != post.src[i] {
+                    bad!("rejected-not-returned", format!("rejected deposit of token {} of collection {}: owner {} -> {}", tok, coll, pre.src[i], post.src[i]));
+                }
+            }
+        }
+        if pre != post || !digest_same {
+            bad!("rejected-changed-state", format!("rejected {:?} changed observable state or minter storage", st.op));
+        }
+        return v;
+    }
+    let new_tgt: Vec<usize> = (0..pre.tgt.len()).filter(|i| pre.tgt[*i] == 0 && post.tgt[*i] != 0).collect();
+    match &st.op {
+        Op::Send { coll, user, tok, recip, .. } => {
+            let amt = case.required_amount(*coll);
+            if st.at <= pre.start {
+                bad!("deposit-not-after-start", format!("deposit accepted at {} with start time {}", st.at, pre.start));
+            }
+            if amt.is_none() {
+                bad!("foreign-collection-accepted", format!("deposit from collection {} which is not required was accepted", coll));
+            }
+            let Some(r) = recipient_index(*user, recip) else {
+                bad!("invalid-recipient-accepted", "deposit with an invalid recipient string accepted".into());
+                return v;
+            };
+            let had = *sh.credited.get(&(r, *coll)).unwrap_or(&0);
+            if case.regular() {
+                if let Some(a) = amt {
+                    if had >= a {
+                        bad!("beyond-requirement-accepted", format!("recipient {} already had {} of required {} from collection {}, one more accepted", r, had, a, coll));
+                    }
+                }
+            }
+            if pre.counts[r] >= pre.limit {
+                bad!("deposit-at-limit", format!("recipient {} has mint count {} with per-address limit {}, deposit accepted", r, pre.counts[r], pre.limit));
+            }
+            let got = *sh.received.get(&r).unwrap_or(&0);
+            if got >= pre.limit && pre.mintable > 0 {
+                bad!("deposit-at-limit", format!("recipient {} was minted {} tokens (per-address limit {}), tokens remain, deposit accepted", r, got, pre.limit));
+            }
+            // the deposited token is burned
+            if let Some(i) = case.src.iter().position(|(c, t, _)| c == coll && t == tok) {
+                if post.src[i] != 0 {
+                    bad!("deposit-not-burned", format!("deposited token {} of collection {} still exists, owner {}", tok, coll, post.src[i]));
+                }
+                for j in 0..pre.src.len() {
+                    if j != i && pre.src[j] != post.src[j] {
+                        bad!("source-token-changed", format!("another source token changed owner {} -> {}", pre.src[j], post.src[j]));
+                    }
+                }
+            }
+            if post.src_supply[*coll] + 1 != pre.src_supply[*coll] {
+                bad!("deposit-not-burned", format!("NumTokens of collection {}: {} -> {}", coll, pre.src_supply[*coll], post.src_supply[*coll]));
+            }
+            if !v.is_empty() {
+                return v;
+            }
+            sh.credited.insert((r, *coll), had + 1);
+            let complete = case.req.iter().all(|(c, a)| *sh.credited.get(&(r, *c)).unwrap_or(&0) >= *a);
+            if complete && new_tgt.is_empty() {
+                bad!("complete-but-no-mint", format!("recipient {} has every required deposit, nothing was minted", r));
+            } else if !complete && !new_tgt.is_empty() {
+                bad!("mint-without-complete-deposits", format!("token minted for recipient {} whose deposits are {:?}", r, sh.credited));
+            } else if complete {
+                if new_tgt.len() != 1 || post.tgt[new_tgt[0]] != ACCOUNTS[r].1 {
+                    bad!("mint-wrong-recipient", format!("expected one new token owned by {}, new tokens {:?} owners {:?}", ACCOUNTS[r].1, new_tgt, post.tgt));
+                }
+                if post.counts[r] != pre.counts[r] + 1 {
+                    bad!("mint-count", format!("MintCount of recipient {} -> {}", pre.counts[r], post.counts[r]));
+                }
+                if post.mintable + 1 != pre.mintable {
+                    bad!("mintable-count", format!("MintableNumTokens {} -> {}", pre.mintable, post.mintable));
+                }
+                if (0..nc).any(|c| post.ledger[r * nc + c] != 0) {
+                    bad!("ledger-not-reset", format!("DepositedTokens of recipient {} after the mint: {:?}", r, &post.ledger[r * nc..(r + 1) * nc]));
+                }
+                for c in 0..nc {
+                    sh.credited.remove(&(r, c));
+                }
+            } else {
+                if post.counts != pre.counts || post.mintable != pre.mintable {
+                    bad!("counters-changed-without-mint", "mint count / mintable changed by a deposit that minted nothing".into());
+                }
+                if pre.mintable == 0 {
+                    notes.push(format!("{}: deposit burned after sell-out (no mint can follow)", case.name));
+                }
+            }
+        }
+        Op::Direct { user, .. } => {
+            bad!("direct-call-accepted", format!("ReceiveNft called directly by account {} was accepted", account_id(*user)));
+        }
+        _ => {
+            if pre.src != post.src {
+                bad!("source-token-changed", format!("{:?} changed a source token", st.op));
+            }
+        }
+    }
+    for i in &new_tgt {
+        if let Some(a) = ACCOUNTS.iter().position(|(_, id)| *id == post.tgt[*i]) {
+            *sh.received.entry(a).or_insert(0) += 1;
+        }
+    }
+    if let Op::Purge { .. } = &st.op {
+        if pre.mintable == 0 {
+            sh.received.clear(); // the documented reset once the sale is sold out
+        }
+    }
+    // DepositedTokens shows exactly the accepted, not yet consumed deposits
+    for a in 0..NACC {
+        for c in 0..nc {
+            let want = *sh.credited.get(&(a, c)).unwrap_or(&0) as u64;
+            if post.ledger[a * nc + c] != want && v.is_empty() {
+                v.push(("C17:ledger-mismatch".into(), format!("DepositedTokens({})[{}] = {}, accepted deposits since last mint = {}", ACCOUNTS[a].0, c, post.ledger[a * nc + c], want)));
+            }
+        }
+    }
+    let nonzero = post.ledger.iter().filter(|x| **x != 0).count() as u64;
+    if (post.ledger_extra != 0 || post.raw_ledger_entries != nonzero) && v.is_empty() {
+        v.push(("C17:ledger-mismatch".into(), format!("raw RECEIVED_TOKENS has {} entries, queries show {} (+{} unknown collections)", post.raw_ledger_entries, nonzero, post.ledger_extra)));
+    }
+    v
+}
+
+/// C01 on the token-merge minter, evaluated on every step: every minted id lies in
+/// 1..=num_tokens and is minted at most once, never id 0, MintableNumTokens =
+/// num_tokens - minted - burned, the mintable ids are exactly the ids neither minted nor
+/// burned (raw MINTABLE_TOKEN_POSITIONS), Shuffle keeps positions and id set.
+fn monitor_supply(case: &Case, st: &Step, ok: bool, pick: u64, burned_evt: Option<u64>, pre: &Obs, post: &Obs, sh: &mut Shadow) -> Vec<(String, String)> {
+    let mut v: Vec<(String, String)> = vec![];
+    macro_rules! bad {
+        ($k:expr, $w:expr) => {
+            v.push((format!("C01tm:{}", $k), $w))
+        };
+    }
+    let n = case.num_tokens as u64;
+    if !sh.started {
+        sh.started = true;
+        let mut ids: Vec<u64> = pre.positions.iter().map(|(_, t)| *t as u64).collect();
+        ids.sort();
+        let pos: Vec<u64> = pre.positions.iter().map(|(p, _)| *p as u64).collect();
+        if ids != (1..=n).collect::<Vec<_>>() || pos != (1..=n).collect::<Vec<_>>() || pre.mintable != n {
+            bad!("initial-positions", format!("after creation: {} positions, MintableNumTokens {}, num_tokens {}", pre.positions.len(), pre.mintable, n));
+        }
+    }
+    if !ok {
+        return v; // "rejected => nothing changed" is checked by the C17 monitor on the whole observation
+    }
+    if pick != 0 || post.tgt_supply != pre.tgt_supply {
+        if post.tgt_supply != pre.tgt_supply + 1 {
+            bad!("supply-mismatch", format!("target NumTokens {} -> {} in one call", pre.tgt_supply, post.tgt_supply));
+        }
+        if pick == 0 || pick > n {
+            bad!("id-out-of-range", format!("minted id {} with num_tokens {}", pick, n));
+        }
+        if !sh.minted.insert(pick) {
+            bad!("re-mint", format!("id {} minted a second time", pick));
+        }
+        if !post.tgt_all.contains(&pick.to_string()) {
+            bad!("supply-mismatch", format!("minted id {} is not in AllTokens of the collection", pick));
+        }
+    }
+    if let Op::BurnRemaining { .. } = &st.op {
+        let gone = pre.positions.len() as u64;
+        if burned_evt != Some(gone) || !post.positions.is_empty() {
+            bad!("burn-remaining", format!("BurnRemaining reported {:?}, {} positions before, {} after", burned_evt, gone, post.positions.len()));
+        }
+        sh.burned += gone;
+    }
+    if let Op::Shuffle { .. } = &st.op {
+        let mut a: Vec<u32> = pre.positions.iter().map(|x| x.1).collect();
+        let mut b: Vec<u32> = post.positions.iter().map(|x| x.1).collect();
+        a.sort();
+        b.sort();
+        if a != b || pre.positions.iter().map(|x| x.0).ne(post.positions.iter().map(|x| x.0)) {
+            bad!("shuffle-changed-ids", "Shuffle changed the set of mintable ids or positions".to_string());
+        }
+    }
+    if post.tgt_all.iter().any(|t| t == "0") {
+        bad!("mint-zero", "token id 0 exists in the collection".to_string());
+    }
+    let mut all: Vec<u64> = post.tgt_all.iter().filter_map(|t| t.parse().ok()).collect();
+    all.sort();
+    if all != sh.minted.iter().cloned().collect::<Vec<_>>() || post.tgt_supply != sh.minted.len() as u64 {
+        bad!("supply-mismatch", format!("collection holds {:?} (NumTokens {}), minted so far {:?}", post.tgt_all, post.tgt_supply, sh.minted));
+    }
+    if post.mintable + sh.minted.len() as u64 + sh.burned != n {
+        bad!("mintable-count", format!("MintableNumTokens {} != num_tokens {} - minted {} - burned {}", post.mintable, n, sh.minted.len(), sh.burned));
+    }
+    let mut left: Vec<u64> = post.positions.iter().map(|x| x.1 as u64).collect();
+    left.sort();
+    let want: Vec<u64> = if post.positions.is_empty() && sh.burned > 0 { vec![] } else { (1..=n).filter(|t| !sh.minted.contains(t)).collect() };
+    if left != want || post.positions.len() as u64 != post.mintable {
+        bad!("positions-mismatch", format!("mintable ids {:?}, expected {:?}, MintableNumTokens {}", left, want, post.mintable));
+    }
+    v
+}
+
+fn run_case(case: &Case) -> Result<RunOut, String> {
+    let mut w = build(case)?;
+    let init = observe(&w, case);
+    let mut out = RunOut { init: init.clone(), steps: vec![], violations: vec![], notes: vec![] };
+    let mut sh = Shadow::default();
+    let mut pre = init;
+    let mut dead = false; // after a violation the monitors' own bookkeeping is no longer meaningful
+    for (i, st) in case.steps.iter().enumerate() {
+        chain::set_time(&mut w.app, st.at);
+        let d0 = chain::storage_digest(&w.app, &w.minter);
+        let r = apply(&mut w, &st.op);
+        let d1 = chain::storage_digest(&w.app, &w.minter);
+        let post = observe(&w, case);
+        let (ok, err, pick, burned_evt) = match &r {
+            Ok(res) => (true, String::new(), minted_pick(&w, res), burned_attr(res)),
+            Err(e) => (false, e.clone(), 0, None),
+        };
+        if !dead {
+            let mut vs = monitor(case, st, ok, &pre, &post, d0 == d1, &mut sh, &mut out.notes);
+            vs.extend(monitor_supply(case, st, ok, pick, burned_evt, &pre, &post, &mut sh));
+            if !vs.is_empty() {
+                dead = true;
+            }
+            for (k, what) in vs {
+                out.violations.push((k, what, i));
+            }
+        }
+        out.steps.push(StepOut { ok, err, pick, post: post.clone() });
+        pre = post;
+    }
+    Ok(out)
+}
+
+fn case_coq(case: &Case, r: &RunOut) -> String {
+    let steps = case
+        .steps
+        .iter()
+        .zip(r.steps.iter())
+        .map(|(s, o)| format!("({}, {}, {})", s.at, op_coq(&s.op, o.pick), obs_coq(o.ok, &o.post)))
+        .collect::<Vec<_>>()
+        .join("; ");
+    format!("C17Case {} {} [{}]", cfg_coq(case), obs_coq(true, &r.init), steps)
+}
+
+// ------------------------------------------------------------------ generators
+
+struct B {
+    case: Case,
+    t: u64,
+    next_tok: BTreeMap<(usize, usize), u64>,
+}
+impl B {
+    /// `req` amounts for collections 0..req.len(); one more collection exists and is foreign
+    fn new(name: &str, req: &[u32], num_tokens: u32, limit: u32) -> B {
+        B {
+            case: Case {
+                name: name.to_string(),
+                req: req.iter().enumerate().map(|(i, a)| (i, *a)).collect(),
+                ncolls: req.len() + 1,
+                num_tokens,
+                limit,
+                airdrop_price: 0,
+                shuffle_fee: 500,
+                src: vec![],
+                steps: vec![],
+            },
+            t: START + 1,
+            next_tok: BTreeMap::new(),
+        }
+    }
+    fn foreign(&self) -> usize {
+        self.case.ncolls - 1
+    }
+    fn at(&mut self, t: u64) -> &mut Self {
+        self.t = t;
+        self
+    }
+    fn tick(&mut self) {
+        self.t += 1_000_000_000;
+    }
+    /// a token of collection `coll` owned by `user`, minted before the history starts
+    fn fresh(&mut self, coll: usize, user: usize) -> u64 {
+        let n = self.next_tok.entry((coll, user)).or_insert(0);
+        *n += 1;
+        let tok = user as u64 * 100 + *n;
+        self.case.src.push((coll, tok, user));
+        tok
+    }
+    fn push(&mut self, op: Op) -> &mut Self {
+        let at = self.t;
+        self.case.steps.push(Step { at, op });
+        self.tick();
+        self
+    }
+    fn dep(&mut self, coll: usize, user: usize, recip: Recip) -> u64 {
+        let tok = self.fresh(coll, user);
+        self.push(Op::Send { coll, user, tok, garbage: false, recip });
+        tok
+    }
+    fn pay(&self) -> Vec<(u8, u128)> {
+        if self.case.airdrop_price == 0 {
+            vec![]
+        } else {
+            vec![(0, self.case.airdrop_price)]
+        }
+    }
+}
+
+fn perms(n: usize) -> Vec<Vec<usize>> {
+    match n {
+        1 => vec![vec![0]],
+        2 => vec![vec![0, 1], vec![1, 0]],
+        _ => vec![vec![0, 1, 2], vec![0, 2, 1], vec![1, 0, 2], vec![1, 2, 0], vec![2, 0, 1], vec![2, 1, 0]],
+    }
+}
+
+fn vectors() -> Vec<Vec<u32>> {
+    let mut v = vec![];
+    for a in 1..=3 {
+        v.push(vec![a]);
+        for b in 1..=3 {
+            v.push(vec![a, b]);
+            for c in 1..=3 {
+                v.push(vec![a, b, c]);
+            }
+        }
+    }
+    v
+}
+
+fn corpus() -> Vec<Case> {
+    let mut out = vec![];
+    // the smallest merge: one collection, one token
+    let mut b = B::new("corpus-1x1", &[1], 3, 3);
+    b.dep(0, 1, Recip::None);
+    b.dep(0, 1, Recip::None);
+    out.push(b.case);
+    // two collections (2,1): order A A B, then a second cycle B A A; beyond-requirement attempts in between
+    let mut b = B::new("corpus-2-1", &[2, 1], 3, 3);
+    b.dep(0, 1, Recip::None);
+    b.dep(0, 1, Recip::None);
+    b.dep(0, 1, Recip::None); // third of A: beyond
+    b.dep(1, 1, Recip::None); // completes -> mint
+    b.dep(1, 1, Recip::None);
+    b.dep(1, 1, Recip::None); // beyond
+    b.dep(0, 1, Recip::None);
+    b.dep(0, 1, Recip::None); // completes
+    out.push(b.case);
+    // explicit recipient: user1 and user2 both deposit for recipient01
+    let mut b = B::new("corpus-recipient", &[1, 1], 3, 3);
+    b.dep(0, 1, Recip::Addr(4));
+    b.dep(1, 2, Recip::None); // user2's own ledger, not recipient01's
+    b.dep(1, 2, Recip::Addr(4)); // completes recipient01
+    b.dep(0, 2, Recip::None); // completes user2
+    b.dep(0, 3, Recip::Invalid);
+    out.push(b.case);
+    // foreign collection, garbage payload, someone else's token, a token that does not exist, direct calls
+    let mut b = B::new("corpus-rejections", &[2], 3, 3);
+    let f = b.foreign();
+    b.dep(f, 1, Recip::None);
+    let tok = b.fresh(0, 1);
+    b.push(Op::Send { coll: 0, user: 1, tok, garbage: true, recip: Recip::None });
+    b.push(Op::Send { coll: 0, user: 2, tok, garbage: false, recip: Recip::None }); // not the owner
+    b.push(Op::Send { coll: 0, user: 1, tok: 9999, garbage: false, recip: Recip::None });
+    b.push(Op::Direct { user: 1, cw_sender: 1, tok, recip: Recip::None });
+    b.push(Op::Direct { user: 1, cw_sender: 2, tok, recip: Recip::Addr(1) });
+    b.push(Op::Direct { user: PUPPET, cw_sender: 1, tok, recip: Recip::None });
+    b.push(Op::Direct { user: CREATOR, cw_sender: 1, tok: 777, recip: Recip::None });
+    b.push(Op::Send { coll: 0, user: 1, tok, garbage: false, recip: Recip::None });
+    b.push(Op::Send { coll: 0, user: 1, tok, garbage: false, recip: Recip::None }); // already burned
+    out.push(b.case);
+    // start time: start-1ns, start, start+1ns
+    let mut b = B::new("corpus-start", &[1], 3, 3);
+    let tok = b.fresh(0, 1);
+    for t in [START - 1, START, START + 1] {
+        b.at(t).push(Op::Send { coll: 0, user: 1, tok, garbage: false, recip: Recip::None });
+    }
+    out.push(b.case);
+    // sell-out: one token; user1 mints it; user2's partial deposit is still burned, the completing one is refused
+    let mut b = B::new("corpus-sellout", &[2], 1, 3);
+    b.dep(0, 1, Recip::None);
+    b.dep(0, 1, Recip::None);
+    b.dep(0, 2, Recip::None);
+    b.dep(0, 2, Recip::None);
+    b.push(Op::Purge { caller: 5, funds: vec![] });
+    b.dep(0, 2, Recip::None);
+    out.push(b.case);
+    // per-address limit 1
+    let mut b = B::new("corpus-limit", &[1], 3, 1);
+    b.dep(0, 1, Recip::None);
+    b.dep(0, 1, Recip::None); // at limit
+    b.dep(0, 2, Recip::Addr(1)); // recipient at limit, sender not
+    b.dep(0, 1, Recip::Addr(2)); // sender at limit, recipient not: accepted
+    out.push(b.case);
+    // admin messages interleaved
+    let mut b = B::new("corpus-admin", &[2], 3, 2);
+    b.case.airdrop_price = 1000;
+    b.at(START - 50_000_000_000).push(Op::UpdStart { caller: 1, t: START + 5, funds: vec![] });
+    b.push(Op::UpdStart { caller: 0, t: START + 5_000_000_000, funds: vec![] });
+    b.at(START + 6_000_000_000);
+    b.dep(0, 1, Recip::None);
+    let p = b.pay();
+    b.push(Op::MintTo { caller: 0, recip: Recip::Addr(1), funds: p.clone() });
+    b.push(Op::MintTo { caller: 1, recip: Recip::Addr(1), funds: p.clone() });
+    b.push(Op::MintTo { caller: 0, recip: Recip::Addr(1), funds: vec![] });
+    b.push(Op::UpdLimit { caller: 0, l: 1, funds: vec![] });
+    b.dep(0, 1, Recip::None); // count 1, limit 1: refused
+    b.push(Op::UpdLimit { caller: 0, l: 3, funds: vec![] });
+    b.dep(0, 1, Recip::None); // completes
+    b.push(Op::Shuffle { caller: 2, funds: vec![(0, 500)] });
+    b.push(Op::Shuffle { caller: 2, funds: vec![(0, 499)] });
+    b.push(Op::MintFor { caller: 0, tid: 4, recip: Recip::Addr(3), funds: p.clone() });
+    b.push(Op::BurnRemaining { caller: 2, funds: vec![] });
+    b.push(Op::Purge { caller: 2, funds: vec![] });
+    b.push(Op::BurnRemaining { caller: 0, funds: vec![] });
+    b.dep(0, 2, Recip::None);
+    b.dep(0, 2, Recip::None);
+    b.push(Op::Purge { caller: 2, funds: vec![] });
+    b.push(Op::BurnRemaining { caller: 0, funds: vec![] });
+    out.push(b.case);
+    // irregular requirement lists the factory does not refuse: repeated collection, zero amount, empty list
+    let mut b = B::new("corpus-irregular-dup", &[1], 3, 3);
+    b.case.req = vec![(0, 1), (0, 2)];
+    b.dep(0, 1, Recip::None);
+    b.dep(0, 1, Recip::None);
+    out.push(b.case);
+    let mut b = B::new("corpus-irregular-zero", &[0, 1], 3, 3);
+    b.dep(0, 1, Recip::None);
+    b.dep(1, 1, Recip::None);
+    out.push(b.case);
+    let mut b = B::new("corpus-irregular-empty", &[], 3, 3);
+    b.dep(0, 1, Recip::None);
+    out.push(b.case);
+    out
+}
+
+fn probes(rng: &mut Rng) -> Vec<Case> {
+    let mut out = vec![];
+    for (vi, vec) in vectors().into_iter().enumerate() {
+        let n = vec.len();
+        let ps = perms(n);
+        // P1: one user fills the collections in a permuted order, tries one beyond each, mints, starts a second cycle
+        let p = &ps[vi % ps.len()];
+        let mut b = B::new(&format!("probe-fill-{:?}", vec), &vec, 3, 3);
+        for (k, &c) in p.iter().enumerate() {
+            let last = k + 1 == p.len();
+            for j in 0..vec[c] {
+                if last && j + 1 == vec[c] {
+                    // one foreign and one direct attempt right before completion
+                    let f = b.foreign();
+                    b.dep(f, 1, Recip::None);
+                    let tok = b.fresh(c, 1);
+                    b.push(Op::Direct { user: 1, cw_sender: 1, tok, recip: Recip::None });
+                    b.push(Op::Send { coll: c, user: 1, tok, garbage: false, recip: Recip::None });
+                } else {
+                    b.dep(c, 1, Recip::None);
+                }
+            }
+            if !last {
+                b.dep(c, 1, Recip::None); // beyond the requirement
+            }
+        }
+        b.dep(p[0], 1, Recip::None); // the ledger starts again from zero
+        for _ in 1..vec[p[0]] {
+            b.dep(p[0], 1, Recip::None);
+        }
+        b.dep(p[0], 1, Recip::None); // beyond (or, for a single collection, further cycles)
+        out.push(b.case);
+        // P2: two users interleaved, user2 deposits for recipient01; a different permutation
+        let p = &ps[(vi + 1) % ps.len()];
+        let mut b = B::new(&format!("probe-two-{:?}", vec), &vec, 3, 2);
+        let total: u32 = vec.iter().sum();
+        let mut seq: Vec<usize> = vec![];
+        for &c in p.iter() {
+            for _ in 0..vec[c] {
+                seq.push(c);
+            }
+        }
+        for i in 0..total as usize {
+            b.dep(seq[i], 1, Recip::None);
+            b.dep(seq[seq.len() - 1 - i], 2, Recip::Addr(4));
+            if i == 0 {
+                b.dep(seq[0], 3, Recip::Addr(1)); // user3 helps user1: counts toward user1's requirement
+            }
+        }
+        b.dep(seq[0], 2, Recip::None);
+        out.push(b.case);
+        // P3: time boundary, limit boundary and sell-out for this vector
+        let limit = 1 + (vi as u32 % 2);
+        let nt = 1 + (vi as u32 % 3);
+        let mut b = B::new(&format!("probe-bounds-{:?}-l{}-n{}", vec, limit, nt), &vec, nt, limit);
+        let tok = b.fresh(0, 1);
+        for t in [START - 1, START] {
+            b.at(t).push(Op::Send { coll: 0, user: 1, tok, garbage: false, recip: Recip::None });
+        }
+        b.at(START + 1);
+        let users = [1usize, 2, 3];
+        let mut first = Some(tok);
+        for round in 0..(nt + 1) {
+            let u = users[(round as usize) % 3];
+            // each round tries a full set for one user (explicit recipient = self on odd rounds)
+            for c in 0..n {
+                for _ in 0..vec[c] {
+                    let recip = if round % 2 == 1 { Recip::Addr(u) } else { Recip::None };
+                    if u == 1 && c == 0 && first.is_some() {
+                        let tok = first.take().unwrap();
+                        b.push(Op::Send { coll: 0, user: 1, tok, garbage: false, recip });
+                    } else {
+                        b.dep(c, u, recip);
+                    }
+                }
+            }
+            if rng.chance(1, 3) {
+                b.push(Op::Purge { caller: 5, funds: vec![] });
+            }
+        }
+        // user1 again: at limit when limit = 1, otherwise sold out or fine
+        for c in 0..n {
+            b.dep(c, 1, Recip::None);
+        }
+        out.push(b.case);
+    }
+    // admin mints and supply burns around deposits, for a few vectors
+    for (vi, vec) in [vec![1u32], vec![2], vec![1, 1], vec![2, 1], vec![1, 2, 1]].into_iter().enumerate() {
+        for price in [0u128, 1000] {
+            let mut b = B::new(&format!("probe-admin-{:?}-p{}", vec, price), &vec, 3, 2);
+            b.case.airdrop_price = price;
+            let p = b.pay();
+            let n = vec.len();
+            b.dep(0, 1, Recip::None);
+            b.push(Op::MintTo { caller: 0, recip: Recip::Addr(1), funds: p.clone() });
+            b.push(Op::MintTo { caller: 0, recip: Recip::Addr(1), funds: vec![(0, price + 1)] });
+            b.push(Op::MintTo { caller: 0, recip: Recip::Addr(1), funds: vec![(1, price.max(1))] });
+            b.push(Op::MintTo { caller: 5, recip: Recip::Addr(1), funds: p.clone() });
+            b.push(Op::MintTo { caller: 0, recip: Recip::Invalid, funds: p.clone() });
+            for c in 0..n {
+                for _ in 0..vec[c] {
+                    b.dep(c, 1, Recip::None);
+                }
+            }
+            b.push(Op::MintFor { caller: 0, tid: 0, recip: Recip::Addr(2), funds: p.clone() });
+            b.push(Op::MintFor { caller: 0, tid: 4, recip: Recip::Addr(2), funds: p.clone() });
+            for tid in 1..=3 {
+                b.push(Op::MintFor { caller: 0, tid, recip: Recip::Addr(2), funds: p.clone() });
+            }
+            if vi % 2 == 0 {
+                b.push(Op::BurnRemaining { caller: 0, funds: vec![] });
+            }
+            b.dep(0, 3, Recip::None);
+            b.push(Op::Purge { caller: 3, funds: vec![(0, 1)] });
+            b.push(Op::Purge { caller: 3, funds: vec![] });
+            for c in 0..n {
+                for _ in 0..vec[c] {
+                    b.dep(c, 2, Recip::None);
+                }
+            }
+            out.push(b.case);
+        }
+    }
+    // UpdatePerAddressLimit / UpdateStartTime guards
+    let mut lits: Vec<u32> = vec![0, 1, 2, 3, 4, 5, 6, 7, 8, MAX_PER_ADDRESS_LIMIT - 1, MAX_PER_ADDRESS_LIMIT, MAX_PER_ADDRESS_LIMIT + 1];
+    for l in harvest_literals(&["contracts/minters/token-merge-minter/src/contract.rs", "contracts/minters/token-merge-minter/src/validation.rs"]) {
+        if l < 200 {
+            for d in [l.saturating_sub(1), l, l + 1] {
+                lits.push(d as u32);
+            }
+        }
+    }
+    lits.sort();
+    lits.dedup();
+    for nt in [3u32, 99, 100, 101, 134, 167, 1700] {
+        let mut b = B::new(&format!("probe-updlimit-n{}", nt), &[1], nt, 1);
+        b.push(Op::UpdLimit { caller: 1, l: 2, funds: vec![] });
+        b.push(Op::UpdLimit { caller: 0, l: 2, funds: vec![(0, 1)] });
+        for &l in &lits {
+            b.push(Op::UpdLimit { caller: 0, l, funds: vec![] });
+        }
+        b.dep(0, 1, Recip::None);
+        out.push(b.case);
+    }
+    let mut b = B::new("probe-updstart", &[1], 3, 3);
+    let g = chain::GENESIS_NS;
+    let t0 = g + 2_000_000_000;
+    b.at(t0);
+    for t in [t0 + 10, t0 + 1, t0, t0 - 1, g, g - 1, START - 1, START, START + 1] {
+        b.at(t0).push(Op::UpdStart { caller: 0, t, funds: vec![] });
+    }
+    // the last accepted value is START+1; deposits at START+1 (not after) and START+2
+    let tok = b.fresh(0, 1);
+    b.at(START).push(Op::UpdStart { caller: 0, t: START + 1, funds: vec![] });
+    b.at(START + 1).push(Op::Send { coll: 0, user: 1, tok, garbage: false, recip: Recip::None });
+    b.at(START + 1).push(Op::UpdStart { caller: 0, t: START + 10, funds: vec![] });
+    b.at(START + 2).push(Op::UpdStart { caller: 0, t: START + 10, funds: vec![] });
+    b.at(START + 2).push(Op::Send { coll: 0, user: 1, tok, garbage: false, recip: Recip::None });
+    out.push(b.case);
+    out
+}
+
+fn random_history(rng: &mut Rng, idx: usize) -> Case {
+    let n = rng.range(1, 3) as usize;
+    let vec: Vec<u32> = (0..n).map(|_| rng.range(1, 3) as u32).collect();
+    let nt = *rng.pick(&[1u32, 2, 3, 4, 6, 8]);
+    let limit = rng.range(1, 3) as u32;
+    let mut b = B::new(&format!("random-{}", idx), &vec, nt, limit);
+    b.case.airdrop_price = *rng.pick(&[0u128, 0, 1000]);
+    let len = rng.range(20, 45);
+    // generator-side guess of the ledger (only used to bias toward useful deposits)
+    let mut guess: BTreeMap<(usize, usize), u32> = BTreeMap::new();
+    if rng.chance(1, 4) {
+        b.at(START - 2_000_000_000);
+    }
+    let mut burned: Vec<(usize, usize, u64)> = vec![];
+    for _ in 0..len {
+        if rng.chance(1, 6) {
+            b.t += rng.range(0, 3) * 1_000_000_000;
+        }
+        let k = rng.below(100);
+        if k < 68 {
+            let user = rng.range(1, 3) as usize;
+            let recip = match rng.below(20) {
+                0 => Recip::Invalid,
+                1..=4 => Recip::Addr(rng.range(1, 4) as usize),
+                _ => Recip::None,
+            };
+            let r = recipient_index(user, &recip).unwrap_or(user);
+            let open: Vec<usize> = (0..n).filter(|c| *guess.get(&(r, *c)).unwrap_or(&0) < vec[*c]).collect();
+            let coll = if !open.is_empty() && rng.chance(4, 5) { *rng.pick(&open) } else { rng.below(n as u64 + 1) as usize };
+            if coll < n && *guess.get(&(r, coll)).unwrap_or(&0) < vec[coll] {
+                *guess.entry((r, coll)).or_insert(0) += 1;
+                if (0..n).all(|c| *guess.get(&(r, c)).unwrap_or(&0) >= vec[c]) {
+                    for c in 0..n {
+                        guess.remove(&(r, c));
+                    }
+                }
+            }
+            if !burned.is_empty() && rng.chance(1, 12) {
+                let (c, u, tok) = *rng.pick(&burned);
+                b.push(Op::Send { coll: c, user: u, tok, garbage: false, recip });
+            } else {
+                let tok = b.dep(coll, user, recip);
+                burned.push((coll, user, tok));
+            }
+        } else if k < 76 {
+            let user = *rng.pick(&[1usize, 2, 3, 0, PUPPET]);
+            let cw_sender = rng.range(1, 3) as usize;
+            let tok = if !burned.is_empty() && rng.chance(1, 2) { rng.pick(&burned).2 } else { b.fresh(0, cw_sender) };
+            b.push(Op::Direct { user, cw_sender, tok, recip: if rng.chance(1, 3) { Recip::Addr(rng.range(1, 4) as usize) } else { Recip::None } });
+        } else if k < 84 {
+            let caller = if rng.chance(5, 6) { 0 } else { rng.range(1, 5) as usize };
+            let funds = if rng.chance(5, 6) { b.pay() } else { vec![(0, rng.range(1, 1001) as u128)] };
+            let recip = Recip::Addr(rng.range(1, 5) as usize);
+            if rng.chance(2, 3) {
+                b.push(Op::MintTo { caller, recip, funds });
+            } else {
+                b.push(Op::MintFor { caller, tid: rng.range(0, nt as u64 + 1) as u32, recip, funds });
+            }
+        } else if k < 88 {
+            b.push(Op::Purge { caller: rng.range(0, 5) as usize, funds: vec![] });
+        } else if k < 90 {
+            b.push(Op::BurnRemaining { caller: if rng.chance(3, 4) { 0 } else { 2 }, funds: vec![] });
+        } else if k < 94 {
+            b.push(Op::UpdLimit { caller: if rng.chance(5, 6) { 0 } else { 1 }, l: rng.range(0, 4) as u32, funds: vec![] });
+        } else if k < 97 {
+            let t = b.t + rng.range(0, 4) * 1_000_000_000;
+            b.push(Op::UpdStart { caller: if rng.chance(5, 6) { 0 } else { 1 }, t, funds: vec![] });
+        } else {
+            let fee = b.case.shuffle_fee;
+            b.push(Op::Shuffle { caller: rng.range(0, 5) as usize, funds: if rng.chance(3, 4) { vec![(0, fee)] } else { vec![] } });
+        }
+    }
+    b.case
+}
+
+fn malformed(rng: &mut Rng, idx: usize) -> Case {
+    let mut b = B::new(&format!("malformed-{}", idx), &[1, 2], 2, 2);
+    for _ in 0..12 {
+        let user = rng.range(1, 3) as usize;
+        let tok = b.fresh(rng.below(3) as usize, user);
+        let coll = rng.below(3) as usize; // often not the token's collection
+        match rng.below(6) {
+            0 => b.push(Op::Send { coll, user, tok, garbage: true, recip: Recip::None }),
+            1 => b.push(Op::Send { coll, user, tok, garbage: false, recip: Recip::Invalid }),
+            2 => b.push(Op::Send { coll, user: 5, tok, garbage: false, recip: Recip::None }),
+            3 => b.push(Op::Send { coll, user, tok: tok + 50, garbage: false, recip: Recip::None }),
+            4 => b.push(Op::Purge { caller: user, funds: vec![(1, 5)] }),
+            _ => b.push(Op::MintTo { caller: 0, recip: Recip::Addr(user), funds: vec![(0, 1), (1, 1)] }),
+        };
+    }
+    b.case
+}
+
+fn gen_cases(a: &Args) -> Vec<Case> {
+    let mut rng = Rng::new(a.seed);
+    let mut cases = corpus();
+    cases.extend(probes(&mut rng));
+    let (nr, nm) = if a.thorough() { (2500, 200) } else { (150, 12) };
+    for i in 0..nr {
+        cases.push(random_history(&mut rng, i));
+    }
+    for i in 0..nm {
+        cases.push(malformed(&mut rng, i));
+    }
+    cases
+}
+
+/// remove steps one at a time while the same violation key is still produced
+fn shrink(case: &Case, key: &str) -> Case {
+    let mut cur = case.clone();
+    let mut i = cur.steps.len();
+    while i > 0 {
+        i -= 1;
+        let mut t = cur.clone();
+        t.steps.remove(i);
+        if let Ok(r) = run_case(&t) {
+            if r.violations.iter().any(|(k, _, _)| k == key) {
+                cur = t;
+            }
+        }
+    }
+    // drop source tokens no remaining step mentions
+    let used: BTreeSet<(usize, u64)> = cur
+        .steps
+        .iter()
+        .filter_map(|s| match &s.op {
+            Op::Send { coll, tok, .. } => Some((*coll, *tok)),
+            _ => None,
+        })
+        .collect();
+    let mut t = cur.clone();
+    t.src.retain(|(c, k, _)| used.contains(&(*c, *k)));
+    if let Ok(r) = run_case(&t) {
+        if r.violations.iter().any(|(k, _, _)| k == key) {
+            cur = t;
+        }
+    }
+    cur
+}
+
+fn describe(case: &Case, r: &RunOut) -> Vec<String> {
+    case.steps
+        .iter()
+        .zip(r.steps.iter())
+        .map(|(s, o)| {
+            format!(
+                "t={:+}ns {:?} -> {}{}",
+                s.at as i128 - START as i128,
+                s.op,
+                if o.ok { "ok".to_string() } else { {
+                    let e: Vec<char> = o.err.replace('\n', " ").chars().collect();
+                    format!("err(..{})", e[e.len().saturating_sub(70)..].iter().collect::<String>())
+                } },
+                if o.pick != 0 { format!(" minted #{}", o.pick) } else { String::new() }
+            )
+        })
+        .collect()
+}
+
+pub fn run(a: &Args) {
+    let out = OutDir::new(&a.out);
+    let mut rep = Report { property: "C17".into(), tier: a.tier.clone(), seed: a.seed, ..Default::default() };
+    let cases: Vec<Case> = if let Some(p) = &a.replay {
+        #[derive(Deserialize)]
+        struct ReplayFile {
+            case: Case,
+        }
+        let txt = std::fs::read_to_string(p).expect("replay file");
+        let rf: ReplayFile = serde_json::from_str(&txt).expect("replay json");
+        vec![rf.case]
+    } else {
+        gen_cases(a)
+    };
+    let mut coq_cases = vec![];
+    let mut distinct: BTreeSet<String> = BTreeSet::new();
+    let mut nviol = 0;
+    let mut seen_keys: BTreeSet<String> = BTreeSet::new();
+    let mut notes: BTreeMap<String, u64> = BTreeMap::new();
+    for (ci, case) in cases.iter().enumerate() {
+        let r = match run_case(case) {
+            Ok(r) => r,
+            Err(e) => {
+                // the world could not be built: the factory/minter refuse a creation this harness relies on
+                nviol += 1;
+                let body = format!(
+                    "{{\n \"property\": \"C17\",\n \"case\": {},\n \"violation\": {}\n}}\n",
+                    serde_json::to_string(case).unwrap(),
+                    serde_json::to_string(&format!("world setup failed: {}", e)).unwrap()
+                );
+                let path = out.write_replay(&format!("C17-{}.json", nviol), &body);
+                rep.violations.push(Violation { key: "C17:setup".into(), what: format!("{}: world setup failed: {}", case.name, e), replay: path });
+                continue;
+            }
+        };
+        for (s, o) in case.steps.iter().zip(r.steps.iter()) {
+            rep.evaluations += 1;
+            rep.bump(&format!("{}:{}", s.op.kind(), if o.ok { "ok" } else { "err" }));
+            if o.pick != 0 {
+                rep.bump("mints");
+            }
+        }
+        for n in &r.notes {
+            let k = n.splitn(2, ": ").nth(1).unwrap_or(n).to_string();
+            *notes.entry(k).or_insert(0) += 1;
+        }
+        // non-trivial: at least one accepted deposit
+        if case.steps.iter().zip(r.steps.iter()).any(|(s, o)| o.ok && matches!(s.op, Op::Send { .. })) {
+            let mut c = case.clone();
+            c.name.clear();
+            distinct.insert(serde_json::to_string(&c).unwrap());
+        }
+        for (key, what, step) in &r.violations {
+            if seen_keys.contains(key) && nviol >= 5 {
+                continue;
+            }
+            seen_keys.insert(key.clone());
+            nviol += 1;
+            let small = shrink(case, key);
+            let sr = run_case(&small).expect("shrunk case runs");
+            let body = format!(
+                "{{\n \"property\": \"C17\",\n \"key\": {},\n \"violation\": {},\n \"history\": {},\n \"case\": {}\n}}\n",
+                serde_json::to_string(key).unwrap(),
+                serde_json::to_string(&sr.violations.iter().find(|(k, _, _)| k == key).map(|x| x.1.clone()).unwrap_or(what.clone())).unwrap(),
+                serde_json::to_string_pretty(&describe(&small, &sr)).unwrap(),
+                serde_json::to_string(&small).unwrap()
+            );
+            let path = out.write_replay(&format!("C17-{}.json", nviol), &body);
+            rep.violations.push(Violation { key: key.clone(), what: format!("{} step {}: {}", case.name, step, what), replay: path });
+        }
+        if rep.samples.len() < 3 && (ci % 97 == 1 || a.replay.is_some()) {
+            rep.samples.push(serde_json::json!({"case": case.name, "requirements": format!("{:?}", case.req), "num_tokens": case.num_tokens, "limit": case.limit, "history": describe(case, &r)}));
+        }
+        coq_cases.push(case_coq(case, &r));
+    }
+    if a.replay.is_some() {
+        // a replay prints what happened, step by step
+        for (case, _) in cases.iter().zip(0..) {
+            if let Ok(r) = run_case(case) {
+                for l in describe(case, &r) {
+                    println!("  {}", l);
+                }
+                for (k, w, s) in &r.violations {
+                    println!("  VIOLATION {} at step {}: {}", k, s, w);
+                }
+            }
+        }
+    }
+    rep.distinct_nontrivial = distinct.len() as u64;
+    rep.rule = "evaluations = operations executed on the real contracts (each followed by a full observation); a history counts as distinct non-trivial when it differs from every other as data and contains at least one accepted deposit".into();
+    for (k, n) in notes {
+        rep.notes.push(format!("{} x {}", n, k));
+    }
+    rep.notes.push(format!("{} histories", cases.len()));
+    out.write_cases("C17", "From LP Require Import Num Pay Sg1 TokenMerge C17Corr.", "c17_case", "c17_check", &coq_cases, 6, &mut rep);
+    out.finish(&rep);
+    println!("C17 harness: {} histories, {} steps, {} monitor violations", cases.len(), rep.evaluations, nviol);
 }
